@@ -47,6 +47,11 @@ inline void generate(Case& c, Rng& rng, const WLEntry& wl, bool thorough, long m
     prioRange = std::min(prioRange, (unsigned)rng.pick({1, 2, 8, 64, 300}));
     depthMax  = std::min(depthMax, 12u);
   }
+  // every distinct priority costs a bin, and every bin takes a slice of each thread's fixed 2 MB per-thread storage region
+  // (more for per-thread-chunk containers): tens of thousands of distinct priorities end in the library's defined
+  // "per-thread storage out of memory" exit - resource exhaustion, not what this property is about
+  if ((wl.flags & F_PRIO) && maxItems > 8000)
+    prioRange = std::min(prioRange, 4000u);
   bool monotone      = wl.flags & F_MONOTONE;
   unsigned levelStep = (unsigned)rng.pick({0, 1, 1, 3}); // child prio = parent prio + step(+rand)
 
